@@ -156,6 +156,11 @@ def norm_atom(fx: ast.AST, pol: bool) -> Tuple[ast.AST, bool]:
     if isinstance(fx, ast.Compare) and len(fx.ops) == 1 and type(fx.ops[0]) in (ast.IsNot, ast.NotEq, ast.NotIn):
         flip = {ast.IsNot: ast.Is, ast.NotEq: ast.Eq, ast.NotIn: ast.In}[type(fx.ops[0])]
         return ast.Compare(left=fx.left, ops=[flip()], comparators=fx.comparators), not pol
+    # all(not P(x) for x in xs)  ==  not any(P(x) for x in xs)
+    if isinstance(fx, ast.Call) and isinstance(fx.func, ast.Name) and fx.func.id == "all" and len(fx.args) == 1 and not fx.keywords and isinstance(fx.args[0], (ast.GeneratorExp, ast.ListComp)) and isinstance(fx.args[0].elt, ast.UnaryOp) and isinstance(fx.args[0].elt.op, ast.Not):
+        g = fx.args[0]
+        new_g = ast.copy_location(ast.GeneratorExp(elt=g.elt.operand, generators=g.generators), g)
+        return ast.copy_location(ast.Call(func=ast.copy_location(ast.Name(id="any", ctx=ast.Load()), fx.func), args=[new_g], keywords=[]), fx), not pol
     return fx, pol
 
 
